@@ -170,6 +170,8 @@ def _go1(code, want):
     nd = NDCode(code)
     kind = KINDS[PART % 5]
     n = (PART // 5) % (NMAX + 1)
+    if kind == 'apply':
+        n += 1                                   # apply has no empty input: argument positions 0..NMAX
     c = nd.draw(0, CMAX) if kind in ('map', 'starmap') else 0
     p_size = 1 + nd.draw(0, 1)
     if THOROUGH:
